@@ -18,6 +18,11 @@
  *                                         flags(1): bit 0 control/smtproutes exists (content follows), bit 1 control/smtproutes.d exists;
  *                                         file = [namelen][name][content]
  *                                         ->  FATAL (err_confn)  |  ROUTE <port> NONE  |  ROUTE <port> <addresses>
+ *   06 <name> <dns> <mx records>          ask_dnsmx(name) of lib/qdns.c over the stubbed resolver; mx records = flag(1) [prio hi][prio lo][namelen][name]...
+ *                                         ->  RC <n>  |  OK <entry>...
+ *   07 <remhost> <dns> <mx records> <flags routes> <params> <oracle> <flag ifaces> <file>...
+ *                                         getmxlist(remhost) (real smtproute + ask_dnsmx) and then the sequence of 05
+ *                                         ->  DIE <status word|CONF>  |  G<port> ALLME  |  G<port> P ... S ... T ...
  *   05 <params> <oracle> <flag ifaces> <entry>...   the sequence of qremote.c:main():
  *                                         if (port == 25) filter_my_ips; sortmx; ncalls times tryconn
  *                                         ->  ALLME  |  P <entry after filtering>... S <entry after sorting>... then the output of 02
@@ -52,6 +57,7 @@ static void h_freeifaddrs(struct ifaddrs *p);
 #include "lib/control.c"
 #include "lib/match.c"
 #include "lib/fmt.c"
+#include "lib/qdns.c"
 #include "lib/mmap.c"
 #undef socket
 #undef bind
@@ -62,36 +68,89 @@ static void h_freeifaddrs(struct ifaddrs *p);
 /* ---- what conn.c needs from the rest of Qremote (not part of the property) ---- */
 static jmp_buf h_die;
 void err_mem(const int k) { (void)k; longjmp(h_die, 1); }
-void write_status(const char *s) { (void)s; }
-void write_status_m(const char **s, const unsigned int n) { (void)s; (void)n; }
+static char ws_first[8];			/* first word of the first status line written (e.g. "Z4.4.3") */
+static void ws_note(const char *s)
+{
+	if (ws_first[0]) return;
+	size_t i = 0;
+	while (s[i] && s[i] != ' ' && i < sizeof(ws_first) - 1) { ws_first[i] = s[i]; i++; }
+	ws_first[i] = 0;
+}
+void write_status(const char *s) { ws_note(s); }
+void write_status_m(const char **s, const unsigned int n) { (void)n; ws_note(s[0]); }
 void log_writen(int p, const char **s) { (void)p; (void)s; }
 void log_write(int p, const char *s) { (void)p; (void)s; }
 void net_conn_shutdown(const enum conn_shutdown_type t) { (void)t; longjmp(h_die, 2); }
-int ask_dnsmx(const char *n, struct ips **r) { (void)n; (void)r; return 1; }
 void err_confn(const char **m, void *freebuf) { (void)m; free(freebuf); longjmp(h_die, 3); }
 void err_conf(const char *m) { (void)m; longjmp(h_die, 3); }
 const char *clientcertname = "control/clientcert.pem";
 const char *clientkeyname = "control/clientcert.pem";
 struct in6_addr outgoingip, outgoingip6;
 
-/* ask_dnsaaaa() answers from the table of the case: [namelen][name][count][count * 16 octets]... */
+/* the resolver (include/libowfatconn.h) answers from the table of the case:
+ *   [namelen][name][count][count * 16 octets]...   count 0xfe: temporary error, 0xfd: permanent error, 0xfc: out of memory;
+ * a name that is not listed does not exist.  ask_dnsaaaa()/ask_dnsmx() are the real ones from lib/qdns.c. */
 static const unsigned char *d_tab; static size_t d_len;
-int ask_dnsaaaa(const char *name, struct in6_addr **res)
+static size_t d_cnt(unsigned c) { return c >= 0xfc ? 0 : c; }
+int dnsip6(char **out, size_t *len, const char *name)
 {
 	size_t nl = strlen(name), o = 0;
-	*res = NULL;
+	*out = NULL; *len = 0;
 	while (o < d_len) {
-		size_t l = d_tab[o], c = d_tab[o + 1 + l];
+		size_t l = d_tab[o]; unsigned c = d_tab[o + 1 + l];
 		if (l == nl && memcmp(d_tab + o + 1, name, nl) == 0) {
+			if (c == 0xfe) { errno = ETIMEDOUT; return -1; }
+			if (c == 0xfd) { errno = EINVAL; return -1; }
+			if (c == 0xfc) { errno = ENOMEM; return -1; }
 			if (c == 0) return 0;
-			*res = malloc(c * 16);
-			memcpy(*res, d_tab + o + 2 + l, c * 16);
-			return c;
+			*out = malloc(c * 16);
+			memcpy(*out, d_tab + o + 2 + l, c * 16);
+			*len = c * 16;
+			return 0;
 		}
-		o += 2 + l + 16 * c;
+		o += 2 + l + 16 * d_cnt(c);
 	}
 	errno = ENOENT;
-	return DNS_ERROR_PERM;
+	return -1;
+}
+int dnsip4(char **out, size_t *len, const char *name) { (void)name; *out = NULL; *len = 0; errno = ENOENT; return -1; }
+int dnstxt(char **out, const char *name) { (void)name; *out = NULL; errno = ENOENT; return -1; }
+int dnstxt_records(char **out, const char *name) { (void)name; *out = NULL; errno = ENOENT; return -1; }
+int dnsname(char **out, const struct in6_addr *ip) { (void)ip; *out = NULL; errno = ENOENT; return -1; }
+/* MX records of the case: flag(1) then [prio hi][prio lo][namelen][name]...; flag 0 ok, 1 ENOENT, 2 timeout, 3 other error, 4 out of memory */
+static const unsigned char *m_rec; static size_t m_len;
+int dnsmx(char **out, size_t *len, const char *name)
+{
+	(void)name;
+	*out = NULL; *len = 0;
+	unsigned flag = m_len ? m_rec[0] : 1;
+	if (flag == 1) { errno = ENOENT; return -1; }
+	if (flag == 2) { errno = ETIMEDOUT; return -1; }
+	if (flag == 3) { errno = EINVAL; return -1; }
+	if (flag == 4) { errno = ENOMEM; return -1; }
+	size_t o = 1, total = 0;
+	while (o < m_len) { total += 3 + m_rec[o + 2]; o += 3 + m_rec[o + 2]; }
+	if (total == 0) return 0;
+	char *w = malloc(total);		/* exact size */
+	size_t k = 0;
+	for (o = 1; o < m_len; o += 3 + m_rec[o + 2]) {
+		w[k++] = m_rec[o]; w[k++] = m_rec[o + 1];
+		memcpy(w + k, m_rec + o + 3, m_rec[o + 2]); k += m_rec[o + 2];
+		w[k++] = 0;
+	}
+	*out = w; *len = total;
+	return 0;
+}
+static int mx_records_ok(const struct field *f)
+{
+	if (f->len < 1 || f->p[0] > 4) return 0;
+	size_t o = 1;
+	while (o < f->len) {
+		if (o + 3 > f->len || o + 3 + f->p[o + 2] > f->len) return 0;
+		if (memchr(f->p + o + 3, 0, f->p[o + 2])) return 0;
+		o += 3 + f->p[o + 2];
+	}
+	return 1;
 }
 static int dns_table_ok(const struct field *f)
 {
@@ -99,7 +158,7 @@ static int dns_table_ok(const struct field *f)
 	while (o < f->len) {
 		size_t l = f->p[o];
 		if (o + 1 + l >= f->len) return 0;
-		size_t c = f->p[o + 1 + l];
+		size_t c = d_cnt(f->p[o + 1 + l]);
 		if (o + 2 + l + 16 * c > f->len) return 0;
 		if (memchr(f->p + o + 1, 0, l)) return 0;
 		o += 2 + l + 16 * c;
@@ -107,11 +166,27 @@ static int dns_table_ok(const struct field *f)
 	return 1;
 }
 
+/* entry id for the output: ops 01-05 store it as hex in ->name; for lists made by ask_dnsmx()/smtproute() (ops 06, 07)
+ * it is the index of the first MX record with that name, 0xfe for any other name (implicit MX); op 07 prints 0 for every entry */
+static int id_by_record; static int id_route;
+static unsigned name_id(const char *name)
+{
+	if (!id_by_record) return name ? (unsigned)strtoul(name, NULL, 16) & 0xff : 0xff;
+	if (id_by_record == 2) return 0;	/* op 07: ids are not observed */
+	if (!name) return 0xff;
+	size_t nl = strlen(name), o = 1; unsigned i = 0;
+	if (m_len && m_rec[0] != 0) return 0xfe;	/* dnsmx() failed: no record was seen */
+	while (o < m_len) {
+		if (m_rec[o + 2] == nl && memcmp(m_rec + o + 3, name, nl) == 0) return i & 0xff;
+		o += 3 + m_rec[o + 2]; i++;
+	}
+	return 0xfe;
+}
 static int rh_called; static unsigned rh_id; static unsigned rh_idx;
 void getrhost(const struct ips *m, const unsigned short idx)
 {
 	rh_called++;
-	rh_id = m->name ? (unsigned)strtoul(m->name, NULL, 16) : 0xfff;
+	rh_id = name_id(m->name);
 	rh_idx = idx;
 }
 
@@ -220,7 +295,7 @@ static void out_entry(const struct ips *e)
 	size_t l = 5 + 16 * (size_t)e->count;
 	unsigned char *b = malloc(l);
 	b[0] = e->priority >> 24; b[1] = e->priority >> 16; b[2] = e->priority >> 8; b[3] = e->priority;
-	b[4] = e->name ? strtoul(e->name, NULL, 16) : 0xff;
+	b[4] = name_id(e->name);
 	memcpy(b + 5, e->addr, 16 * (size_t)e->count);
 	out_str(" "); out_hex(b, l);
 	free(b);
@@ -249,11 +324,18 @@ static void prime_cur_s(unsigned s)
 	free(e.addr);
 }
 
+static void run_tryconn_keep_port(struct ips *l, const struct field *par, const struct field *orc);
 static void run_tryconn(struct ips *l, const struct field *par, const struct field *orc)
 {
-	unsigned ncalls = par->p[0];
-	prime_cur_s(par->p[1]);
 	targetport = (par->p[2] << 8) | par->p[3];
+	run_tryconn_keep_port(l, par, orc);
+}
+static void run_tryconn_keep_port(struct ips *l, const struct field *par, const struct field *orc)
+{
+	unsigned ncalls = par->p[0];
+	unsigned savedport = targetport;
+	prime_cur_s(par->p[1]);
+	targetport = savedport;
 	o_bytes = orc->p; o_len = orc->len; o_pos = 0;
 	out_str("T");
 	for (unsigned c = 0; c < ncalls; c++) {
@@ -316,39 +398,54 @@ static void wipe_dir(const char *base)
 	unlink(sub);
 	rmdir(base);
 }
+/* builds the scratch control directory of a case; returns 0, or -1 (BADCASE) / -2 (harness problem) */
+static char r_base[64];
+static int route_setup(const struct field *remhost, const struct field *dnsf, const struct field *rf, int nfiles, struct field *files)
+{
+	if (rf->len < 1 || !name_ok(remhost->p, remhost->len, 1) || !dns_table_ok(dnsf) || !content_ok(rf->p + 1, rf->len - 1)) return -1;
+	for (int i = 0; i < nfiles; i++) {
+		const struct field *f = &files[i];
+		if (f->len < 1 || f->len < 1u + f->p[0] || !name_ok(f->p + 1, f->p[0], 0)
+				|| !content_ok(f->p + 1 + f->p[0], f->len - 1 - f->p[0])) return -1;
+		for (int j = 0; j < i; j++)
+			if (files[j].p[0] == f->p[0] && memcmp(files[j].p + 1, f->p + 1, f->p[0]) == 0) return -1;
+	}
+	/* one scratch directory per harness run (the forked case runners share it, they run one after the other) */
+	snprintf(r_base, sizeof(r_base), "/tmp/mxh.%d", (int)getppid());
+	wipe_dir(r_base);		/* left-overs of a case that crashed */
+	mkdir(r_base, 0700);
+	int cfd = open(r_base, O_RDONLY | O_DIRECTORY);
+	if (cfd < 0) return -2;
+	int bad = 0;
+	if (rf->p[0] & 1) bad |= write_file(cfd, "smtproutes", rf->p + 1, rf->len - 1);
+	if (rf->p[0] & 2) {
+		mkdirat(cfd, "smtproutes.d", 0700);
+		int dfd = openat(cfd, "smtproutes.d", O_RDONLY | O_DIRECTORY);
+		if (dfd < 0) bad = 1;
+		for (int i = 0; i < nfiles && dfd >= 0; i++) {
+			char nm[300];
+			memcpy(nm, files[i].p + 1, files[i].p[0]); nm[files[i].p[0]] = 0;
+			bad |= write_file(dfd, nm, files[i].p + 1 + files[i].p[0], files[i].len - 1 - files[i].p[0]);
+		}
+		if (dfd >= 0) close(dfd);
+	}
+	d_tab = dnsf->p; d_len = dnsf->len;
+	controldir_fd = cfd;
+	return bad ? -2 : 0;
+}
+static void route_teardown(void)
+{
+	wipe_dir(r_base);
+	for (int fd = 3; fd < 64; fd++) close(fd);	/* err_confn() leaves descriptors open (the real one exits) */
+}
+
 static void run_route(int nf, struct field *f)
 {
 	/* 04 <remhost> <dns> <flags routes> <file>... */
-	if (nf < 4 || f[3].len < 1 || !name_ok(f[1].p, f[1].len, 1) || !dns_table_ok(&f[2]) || !content_ok(f[3].p + 1, f[3].len - 1)) { out_str("BADCASE"); return; }
-	for (int i = 4; i < nf; i++) {
-		if (f[i].len < 1 || f[i].len < 1u + f[i].p[0] || !name_ok(f[i].p + 1, f[i].p[0], 0)
-				|| !content_ok(f[i].p + 1 + f[i].p[0], f[i].len - 1 - f[i].p[0])) { out_str("BADCASE"); return; }
-		for (int j = 4; j < i; j++)
-			if (f[j].p[0] == f[i].p[0] && memcmp(f[j].p + 1, f[i].p + 1, f[i].p[0]) == 0) { out_str("BADCASE"); return; }
-	}
-	char base[64];
-	/* one scratch directory per harness run (the forked case runners share it, they run one after the other) */
-	snprintf(base, sizeof(base), "/tmp/mxh.%d", (int)getppid());
-	wipe_dir(base);		/* left-overs of a case that crashed */
-	mkdir(base, 0700);
-	int cfd = open(base, O_RDONLY | O_DIRECTORY);
-	if (cfd < 0) { out_str("HARNESS-ERROR"); return; }
-	int haveroutes = f[3].p[0] & 1, havedir = f[3].p[0] & 2;
-	int bad = 0;
-	if (haveroutes) bad |= write_file(cfd, "smtproutes", f[3].p + 1, f[3].len - 1);
-	int dfd = -1;
-	if (havedir) {
-		mkdirat(cfd, "smtproutes.d", 0700);
-		dfd = openat(cfd, "smtproutes.d", O_RDONLY | O_DIRECTORY);
-		for (int i = 4; i < nf && dfd >= 0; i++) {
-			char nm[300];
-			memcpy(nm, f[i].p + 1, f[i].p[0]); nm[f[i].p[0]] = 0;
-			bad |= write_file(dfd, nm, f[i].p + 1 + f[i].p[0], f[i].len - 1 - f[i].p[0]);
-		}
-	}
-	d_tab = f[2].p; d_len = f[2].len;
-	controldir_fd = cfd;
-	if (bad) out_str("HARNESS-ERROR");
+	if (nf < 4) { out_str("BADCASE"); return; }
+	int r = route_setup(&f[1], &f[2], &f[3], nf - 4, f + 4);
+	if (r == -1) { out_str("BADCASE"); return; }
+	if (r == -2) out_str("HARNESS-ERROR");
 	else {
 		char *rh = malloc(f[1].len + 1);		/* exact size */
 		memcpy(rh, f[1].p, f[1].len); rh[f[1].len] = 0;
@@ -367,9 +464,65 @@ static void run_route(int nf, struct field *f)
 		free_smtproute_vals();
 		free(rh);
 	}
-	/* clean up */
-	wipe_dir(base);
-	for (int fd = 3; fd < 64; fd++) close(fd);	/* err_confn() leaves descriptors open (the real one exits) */
+	route_teardown();
+}
+
+/* 06 <name> <dns> <mx records>:  ask_dnsmx(name, &list)  ->  RC <n>  |  OK <entry>...   (entry ids: see name_id) */
+static void run_dnsmx(int nf, struct field *f)
+{
+	if (nf != 4 || !name_ok(f[1].p, f[1].len, 1) || !dns_table_ok(&f[2]) || !mx_records_ok(&f[3])) { out_str("BADCASE"); return; }
+	d_tab = f[2].p; d_len = f[2].len; m_rec = f[3].p; m_len = f[3].len;
+	id_by_record = 1; id_route = 0;
+	char *nm = malloc(f[1].len + 1);
+	memcpy(nm, f[1].p, f[1].len); nm[f[1].len] = 0;
+	struct ips *l = NULL;
+	int rc = ask_dnsmx(nm, &l);
+	if (rc != 0) { out_str("RC "); out_int(rc); }
+	else out_list(l);
+	free(nm);
+}
+
+/* 07 <remhost> <dns> <mx records> <flags routes> <params> <oracle> <flag ifaces> <file>...
+ *    getmxlist(remhost, &mx) with the real smtproute() and ask_dnsmx(), then the statements of main() as in 05
+ *    ->  DIE <first word of the status line | CONF>  |  ALLME  |  G<port> P ... S ... T ... */
+static void run_main(int nf, struct field *f)
+{
+	if (nf < 8 || f[5].len != 4 || !mx_records_ok(&f[3]) || build_ifaces(&f[7]) != 0
+			|| (f[1].len > 0 && f[1].p[0] == '[')) { out_str("BADCASE"); return; }
+	int r = route_setup(&f[1], &f[2], &f[4], nf - 8, f + 8);
+	if (r == -1) { out_str("BADCASE"); return; }
+	if (r == -2) { out_str("HARNESS-ERROR"); route_teardown(); return; }
+	m_rec = f[3].p; m_len = f[3].len;
+	id_by_record = 2;
+	ws_first[0] = 0;
+	char *rh = malloc(f[1].len + 1);
+	memcpy(rh, f[1].p, f[1].len); rh[f[1].len] = 0;
+	struct ips *l = NULL;
+	targetport = 4711;
+	int j = setjmp(h_die);
+	if (j == 0) {
+		getmxlist(rh, &l);
+	} else {
+		out_str("DIE "); out_str(j == 3 ? "CONF" : ws_first[0] ? ws_first : "?");
+		free_smtproute_vals(); route_teardown(); return;
+	}
+	{ char t[16]; snprintf(t, sizeof(t), "G%u ", targetport); out_str(t); }
+	/* the statement sequence of qremote/qremote.c:main() after getmxlist() */
+	if (targetport == 25) {
+		l = filter_my_ips(l);
+		if (l == NULL) { out_str("ALLME"); free_smtproute_vals(); route_teardown(); return; }
+	}
+	out_str("P"); for (struct ips *e = l; e; e = e->next) out_entry(e);
+	sortmx(&l);
+	out_str(" S"); for (struct ips *e = l; e; e = e->next) out_entry(e);
+	out_str(" ");
+	unsigned port = targetport;
+	struct field par = f[5];
+	unsigned char pb[4] = { par.p[0], par.p[1], port >> 8, port };
+	par.p = pb;
+	run_tryconn_keep_port(l, &par, &f[6]);
+	free_smtproute_vals();
+	route_teardown();
 }
 
 static void run_case(int nf, struct field *f)
@@ -378,6 +531,7 @@ static void run_case(int nf, struct field *f)
 	inet_pton(AF_INET6, "::ffff:192.0.2.77", &h_out4);
 	inet_pton(AF_INET6, "2001:db8::77", &h_out6);
 	unsigned op = f[0].p[0];
+	id_by_record = 0; id_route = 0;
 	if (op == 0x01) {
 		struct ips *l = build_list(nf, f, 1);
 		if (l == (struct ips *)-1) { out_str("BADCASE"); return; }
@@ -412,6 +566,10 @@ static void run_case(int nf, struct field *f)
 		run_tryconn(l, &f[1], &f[2]);
 	} else if (op == 0x04) {
 		run_route(nf, f);
+	} else if (op == 0x06) {
+		run_dnsmx(nf, f);
+	} else if (op == 0x07) {
+		run_main(nf, f);
 	} else out_str("BADCASE");
 }
 
